@@ -337,7 +337,8 @@ func (d Decimal) Mod(input Decimal) Decimal {
 
 // ToProtoDecimal returns the proto Decimal representation of decimal.
 func (d Decimal) ToProtoDecimal() *dtpb.Decimal {
-	return fhir.Decimal(decimal.Decimal(d).InexactFloat64())
+	// the decimal string is kept exactly (a float64 would lose digits beyond the 15th)
+	return &dtpb.Decimal{Value: decimal.Decimal(d).String()}
 }
 
 // Round rounds a Decimal at the provided precision.
